@@ -131,7 +131,7 @@ PROPS["C03"] = {
         {"base": "accept-quick", "flip": {"ValidateEmptyInSync": "FALSE"}, "tiers": ("quick",)},
     ],
     "drives": [
-        {"name": "replica-c03", "cmd": "replica", "args": {"profile": "c03", "n": {"quick": 300, "thorough": 6000}},
+        {"name": "replica-c03", "cmd": "replica", "args": {"profile": "c03", "twin": 1, "n": {"quick": 300, "thorough": 6000}},
          "trace_module": "ReplicaTrace", "trace_consts": dict(RANGER, Prop='"C03"')},
     ],
 }
@@ -259,17 +259,21 @@ PROPS["C15"] = {
     "level": "model_checking",
     "rule": "model: policies per document across removal/reopen; implementation: set/get on existing, missing and removed "
             "documents incl. reopen; DownloadPolicy::matches on random policies/keys; Display/FromStr of filters with "
-            "non-UTF-8, empty and ':'-containing bytes (the should_download flag of real events is checked under C12)",
+            "non-UTF-8, empty and ':'-containing bytes; the should_download flag of every remote-insert event of seeded replica "
+            "histories with policy changes on the open replica (single inserts and reconciliation messages)",
     "assumptions": DOCS_ASSUME,
     "models": [DOCS_Q],
     "sensitivity": [{"base": "docs-quick", "flip": {"RemoveClearsSettings": "FALSE"}}],
-    "drives": [docs_drive("C15")],
+    "drives": [docs_drive("C15"),
+               {"name": "replica-c15", "cmd": "replica", "args": {"profile": "all", "n": {"quick": 200, "thorough": 5000}},
+                "trace_module": "ReplicaTrace", "trace_consts": dict(RANGER, Prop='"C15"')}],
 }
 PROPS["C16"] = {
     "level": "model_checking",
     "rule": "model: removal refused while open, removed document unobservable, every other document untouched, over 3 ids "
             "<<1,255>>, <<2,0>>, <<255,255>> with the namespace range mechanism; implementation: all observers of all 7 "
-            "documents + the store-wide content-hash list compared after every step",
+            "documents + the store-wide content-hash list compared after every step; on file stores the four synthetic "
+            "neighbour documents (ids ..FE, ..FF, carry successor, all-0xFF) also hold entries, planted into the database file",
     "assumptions": DOCS_ASSUME,
     "models": [DOCS_Q, DOCS_T],
     "sensitivity": [{"base": "docs-quick", "flip": {"RemoveClearsHeads": "FALSE"}},
@@ -517,5 +521,33 @@ EXTRA["X01"] = {
     "drives": [
         {"name": "api", "cmd": "api", "args": {"n": {"quick": 60, "thorough": 3000}},
          "trace_module": "ApiTrace", "trace_consts": dict(API_CONSTS, SetDefaultFlushes="FALSE"), "tv_timeout": 3000},
+    ],
+}
+
+DL_INV = ["TasksMatchQueue", "NoEmptyWaiters", "ReadyNotOverdue", "MayMeansOwed", "ReadyMeansIdle"]
+EXTRA["X02"] = {
+    "level": "model_checking",
+    "rule": "content-download bookkeeping of the live actor (live.rs on_replica_event / start_download / on_download_ready / "
+            "on_neighbor_content_ready / tail of on_sync_finished, state.rs may_emit_ready): model = all interleavings (<= 8 / 10 "
+            "steps) of remote inserts (download wanted or not, content available at the sender or not), neighbour announcements, "
+            "download completions (ok / failed), finished syncs, content arriving by other means, leave / join over 2 documents "
+            "and 2-3 hashes; implementation = seeded histories on a real LiveActor whose handlers are called directly (hooks H6, H8), "
+            "download tasks played by the driver",
+    "assumptions": ["the trace specification runs with ReadyToAllDocs = FALSE, which is what on_download_ready does (ContentReady is "
+                    "sent only to the document whose insert started the task); the design value TRUE is what AllWaitersHear needs - "
+                    "see DESIGN.md 12.6",
+                    "gossip broadcasts to neighbours are not observed"],
+    "models": [
+        {"name": "downloads", "module": "DownloadsModel", "workers": 6,
+         "consts": dict(ReadyToAllDocs="FALSE", Docs="{1, 2}", Hashes="{1, 2}", MaxSteps=8), "invariants": DL_INV},
+        {"name": "downloads-design", "module": "DownloadsModel", "workers": 6,
+         "consts": dict(ReadyToAllDocs="TRUE", Docs="{1, 2}", Hashes="{1, 2}", MaxSteps=7), "invariants": DL_INV + ["AllWaitersHear"]},
+        {"name": "downloads-deep", "module": "DownloadsModel", "workers": 12, "tiers": ("thorough",), "timeout": 3000,
+         "consts": dict(ReadyToAllDocs="FALSE", Docs="{1, 2}", Hashes="{1, 2, 3}", MaxSteps=10), "invariants": DL_INV},
+    ],
+    "sensitivity": [{"base": "downloads-design", "flip": {"ReadyToAllDocs": "FALSE"}}],
+    "drives": [
+        {"name": "downloads", "cmd": "downloads", "args": {"n": {"quick": 150, "thorough": 5000}},
+         "trace_module": "DownloadsTrace", "trace_consts": dict(ReadyToAllDocs="FALSE"), "tv_timeout": 3000},
     ],
 }
